@@ -1502,6 +1502,321 @@ def run_pipes(env, res, rng0, ctxs, hist, rp):
                 break
 
 
+# ------------------------------------------------------------------ single calls with a lambda per match / per common key
+#
+# mergeWith (listMerger / itemMerger once per key the two dictionaries share, in the order of the receiver), search
+# (selector once if the expression matches), searchAll (once per match), replaceBy in both directions (repl once per
+# replaced match).  The reference is a plain-Python transcription of the documented meaning that lists the
+# applications; the model side is `Yaql.EvalOrder.trace` of the eager node holding these applications in order.
+
+CALL_KINDS = ['mergeWith', 'search', 'searchAll', 'replaceBy', 'replaceByString']
+CALL_SLOTS = {'mergeWith': ['d2', 'lm', 'im', 'maxLevels'], 'search': ['string', 'sel'], 'searchAll': ['string', 'sel'],
+              'replaceBy': ['string', 'repl', 'count'], 'replaceByString': ['regexp', 'repl', 'count']}
+
+
+def call_entry(spec, conv):
+    k = spec['kind']
+    if k == 'mergeWith':
+        return spell().entry(conv, 'mergeWith', method=True)
+    if k == 'replaceByString':
+        return spell().entry(conv, 'replaceBy', method=True, first='string')
+    return spell().entry(conv, k, method=True, first='regexp')
+
+
+def call_names(spec):
+    e = call_entry(spec, 'camel')
+    return [(k, n, spec.get(k) is not None) for k, n in zip(CALL_SLOTS[spec['kind']], e.argnames(True))]
+
+
+class CallGen:
+    def __init__(self, rng, ctx, depth):
+        self.rng, self.g, self.depth = rng, LamGen(rng, ctx, depth), depth
+
+    def body(self, ty, var, vars_):
+        b = self.g.body(ty, var, self.rng.randrange(0, self.depth + 1))
+        b['vars'] = vars_
+        return b
+
+    def newid(self):
+        self.g.n += 1
+        return self.g.n
+
+    def make(self, conv):
+        r = self.rng
+        kind = r.choice(CALL_KINDS)
+        spec = dict(kind=kind, conv=conv, ids={})
+        if kind == 'mergeWith':
+            keys = ['a', 'b', 'c', 'd']
+            mk = lambda k: [r.choice([1, 2, 3]) for _ in range(r.choice([0, 1, 2]))] if k in 'bd' else r.choice([1, 2, 5])
+            spec['d1'] = [(k, mk(k)) for k in keys if r.random() < 0.6]
+            spec['d2'] = [(k, mk(k)) for k in r.sample(keys, 4) if r.random() < 0.6]
+            for side in ('d1', 'd2'):
+                spec['ids'][side] = [self.newid() if r.random() < 0.25 else None for _ in spec[side]]
+            if r.random() < 0.7:
+                spec['lm'] = self.body('I', r.choice(['len($1)', 'len($2)']), ['$1', '$2'])
+            if r.random() < 0.8:
+                spec['im'] = self.body('I', r.choice(['$1', '$2']), ['$1', '$2'])
+            if r.random() < 0.4:
+                spec['maxLevels'] = r.choice([0, 1, 2])
+        else:
+            spec['pattern'] = r.choice(['[ab]', 'a', 'b+', 'x', '(a)(b)?', 'c'])
+            spec['text'] = r.choice(['abcab', 'bbb', '', 'cab', 'aab'])
+            ty, var = ('S', '$.value') if kind.startswith('replaceBy') else r.choice([('I', '$.start'), ('I', '$.end'),
+                                                                                      ('S', '$.value')])
+            b = self.body(ty, var, ['$'])
+            if kind.startswith('replaceBy'):
+                spec['repl'] = b
+                if r.random() < 0.5:
+                    spec['count'] = r.choice([0, 1, 2])
+            elif r.random() < 0.85:
+                spec['sel'] = b
+            spec['string' if kind != 'replaceByString' else 'regexp'] = True
+        for k in ('string', 'regexp', 'receiver', 'count', 'maxLevels'):
+            if (k == 'receiver' or spec.get(k) is not None) and r.random() < 0.3:
+                spec['ids'][k] = self.newid()
+        spec['sp'] = c11spell.spelling(r, call_entry(spec, 'camel'), [n for _, n, _ in call_names(spec)],
+                                       [pr for _, _, pr in call_names(spec)])
+        return spec
+
+
+def lit(v, i=None):
+    t = json.dumps(v).replace('"', "'") if not isinstance(v, str) else "'%s'" % v
+    return 'tick(%d, %s)' % (i, t) if i else t
+
+
+def dict_text(items, ids):
+    return '{%s}' % ', '.join('%s => %s' % (k, lit(v, i)) for (k, v), i in zip(items, ids))
+
+
+def call_text(spec, conv=None):
+    conv = conv or spec.get('conv', 'camel')
+    e, sn, ids, kind = call_entry(spec, conv), call_names(spec), spec['ids'], spec['kind']
+    rx = 'regex(%s)' % lit(spec['pattern'], ids.get('regexp' if kind == 'replaceByString' else 'receiver')) \
+        if kind != 'mergeWith' else None
+    st = lit(spec['text'], ids.get('receiver' if kind == 'replaceByString' else 'string')) if kind != 'mergeWith' else None
+    texts = []
+    for k, _, present in sn:
+        if not present:
+            texts.append(None)
+        elif k == 'd2':
+            texts.append(dict_text(spec['d2'], ids['d2']))
+        elif k in ('lm', 'im', 'sel', 'repl'):
+            texts.append(conv_text(spec[k]['text'], conv))
+        elif k in ('count', 'maxLevels'):
+            texts.append(lit(spec[k], ids.get(k)))
+        else:
+            texts.append(st if k == 'string' else rx)
+    recv = dict_text(spec['d1'], ids['d1']) if kind == 'mergeWith' else st if kind == 'replaceByString' else rx
+    return '%s.%s(%s)' % (recv, e.name, c11spell.write_args(e, [n for _, n, _ in sn], texts, sp_of(spec, sn)))
+
+
+def call_ref(spec, ctx):
+    """-> (the probes of the eager arguments in the order they fire, [(body, argument values)..] the applications of
+    the lambdas in order, the value)"""
+    import re as _re
+    ids, kind, sn = spec['ids'], spec['kind'], call_names(spec)
+    val = lambda b, *a: freeze(ev(b['text'], ctx, dict(zip(b['vars'], a))))
+    apps = []
+    if kind == 'mergeWith':
+        eager = [i for i in ids['d1'] if i]
+        for n in c11spell.eager_order([n for _, n, _ in sn], sp_of(spec, sn)):
+            k = [kk for kk, nn, _ in sn if nn == n][0]
+            eager += [i for i in ids['d2'] if i] if k == 'd2' else [ids[k]] if ids.get(k) else []
+        d2 = dict(spec['d2'])
+        out = {}
+        for k, v1 in spec['d1']:
+            out[k] = freeze(v1)
+            if k in d2:
+                v2 = d2[k]
+                which = 'lm' if spec.get('maxLevels') != 1 and isinstance(v2, list) else 'im'
+                if spec.get(which):
+                    apps.append((spec[which], (freeze(v1), freeze(v2))))
+                    out[k] = val(spec[which], freeze(v1), freeze(v2))
+                elif which == 'im':
+                    out[k] = freeze(v2)
+                else:
+                    seen = []
+                    for x in list(v1) + list(v2):
+                        if x not in seen:
+                            seen.append(x)
+                    out[k] = tuple(seen)
+        for k, v2 in spec['d2']:
+            out.setdefault(k, freeze(v2))
+        return eager, apps, out
+    eager = [ids['receiver']] if ids.get('receiver') else []
+    for n in c11spell.eager_order([n for _, n, _ in sn], sp_of(spec, sn)):
+        k = [kk for kk, nn, _ in sn if nn == n][0]
+        eager += [ids[k]] if ids.get(k) else []
+    rx = _re.compile(spec['pattern'])
+    rec = lambda m: dict(value=m.group(), start=m.start(0), end=m.end(0))
+    if kind == 'search':
+        m = rx.search(spec['text'])
+        if m is None:
+            return eager, apps, None
+        if not spec.get('sel'):
+            return eager, apps, m.group()
+        apps.append((spec['sel'], (rec(m),)))
+        return eager, apps, val(spec['sel'], rec(m))
+    if kind == 'searchAll':
+        out = []
+        for m in rx.finditer(spec['text']):
+            if spec.get('sel'):
+                apps.append((spec['sel'], (rec(m),)))
+                out.append(val(spec['sel'], rec(m)))
+            else:
+                out.append(m.group())
+        return eager, apps, tuple(out)
+
+    def repl(m):
+        apps.append((spec['repl'], (rec(m),)))
+        v = val(spec['repl'], rec(m))
+        if not isinstance(v, str):
+            raise Bad('replacement %r' % (v,))
+        return v
+    return eager, apps, rx.sub(repl, spec['text'], spec.get('count') or 0)
+
+
+def call_case(spec, ctx):
+    """-> dict(text, ref_log, ref_value, x): x = the eager node of the probes and applications in order"""
+    eager, apps, value = call_ref(spec, ctx)
+    ks = [dict(k='tick', id=i, a=LEAF) for i in eager]
+    for b, args in apps:
+        env = dict(zip(b['vars'], args))
+        ks.append(inst(b['x'], lambda fl: flagval(fl, ctx, env)))
+    x = dict(k='eager', ks=ks)
+    return dict(text=call_text(spec), ref_log=py_trace(x), ref_value=value, x=x, conv=spec.get('conv', 'camel'), napps=len(apps))
+
+
+def call_plain(spec):
+    sn = call_names(spec)
+    present = [pr for _, _, pr in sn]
+    gap = present.index(False) if False in present else len(present)
+    return dict(spec, conv='camel', sp=dict(npos=gap, kw=[n for i, (_, n, pr) in enumerate(sn) if i >= gap and pr]))
+
+
+def call_verdict(spec, ctx, model_log, c=None):
+    c = c or call_case(spec, ctx)
+    value, log, err = real_pipe(c['text'], conv_context(c['conv']))
+    where = '' if c['conv'] == 'camel' else ' (in a context of the %s naming convention)' % c['conv']
+    if err is not None or log != c['ref_log']:
+        ptext = call_text(call_plain(spec))
+        if ptext != c['text']:
+            _, plog, perr = real_pipe(ptext, conv_context('camel'))
+            if perr is None and plog == c['ref_log']:
+                return ('oracle', 'spelling', '%s%s: %s; the same call with every argument in its positional slot, %s, logs '
+                        '%r, which is the lambda once per match / per common key: an argument of a lazily evaluated '
+                        'parameter must stay lazy when it is passed by keyword' % (
+                            c['text'], where, 'raises ' + err if err is not None else 'real log %r' % (log,), ptext, plog))
+    if err is not None:
+        return ('oracle', 'call-raises', '%s%s: raises %s; the reference gives %r with log %r' % (
+            c['text'], where, err, c['ref_value'], c['ref_log']))
+    if log != c['ref_log']:
+        return ('oracle', 'per-application', '%s%s: real log %r; the eager arguments once in order, then the lambda once '
+                'per match / per common key gives %r' % (c['text'], where, log, c['ref_log']))
+    if canon_value(value) != canon_value(c['ref_value']):
+        return ('mismatch', 'call-value', '%s: real value %r, transcription %r (the harness applies the lambda to the '
+                'wrong things)' % (c['text'], value, c['ref_value']))
+    if model_log is not None and model_log != c['ref_log']:
+        return ('mismatch', 'model', '%s: Lean trace %r, transcription %r' % (c['text'], model_log, c['ref_log']))
+    return None
+
+
+def sub_calls(spec, counter):
+    if spec.get('conv', 'camel') != 'camel':
+        yield dict(spec, conv='camel')
+    sn = call_names(spec)
+    for k in ('count', 'maxLevels', 'sel', 'lm', 'im'):
+        if spec.get(k) is not None and (k in ('count', 'maxLevels') or spec['kind'] != 'search' or k != 'sel'):
+            q = {kk: v for kk, v in spec.items() if kk != k}
+            q['ids'] = {kk: v for kk, v in spec['ids'].items() if kk != k}
+            yield respell(q, call_names(q))
+    if any(v for v in spec['ids'].values() if not isinstance(v, list)):
+        yield dict(spec, ids={k: v for k, v in spec['ids'].items() if isinstance(v, list)})
+    for side in ('d1', 'd2'):
+        for i in range(len(spec.get(side, []))):
+            yield dict(spec, **{side: spec[side][:i] + spec[side][i + 1:]},
+                       ids=dict(spec['ids'], **{side: spec['ids'][side][:i] + spec['ids'][side][i + 1:]}))
+        if any(spec['ids'].get(side, [])):
+            yield dict(spec, ids=dict(spec['ids'], **{side: [None] * len(spec[side])}))
+    if spec.get('text'):
+        yield dict(spec, text=spec['text'][:-1])
+    names = [n for _, n, _ in sn]
+    sp = sp_of(spec, sn)
+    if sp['kw'] and sp['npos'] < len(names) and names[sp['npos']] in sp['kw']:
+        yield dict(spec, sp=dict(npos=sp['npos'] + 1, kw=[n for n in sp['kw'] if n != names[sp['npos']]]))
+    for k in ('sel', 'repl', 'lm', 'im'):
+        if spec.get(k) and not spec[k]['text'].startswith('tick(9'):
+            counter[0] += 1
+            t = {'sel': '$.start', 'repl': '$.value', 'lm': 'len($1) + len($2)', 'im': '$1 + $2'}[k]
+            n = 900 + counter[0]
+            yield dict(spec, **{k: dict(text='tick(%d, %s)' % (n, t), x=dict(k='tick', id=n, a=LEAF), vars=spec[k]['vars'])})
+
+
+def shrink_call(spec, ctx, drv, f):
+    def fails(q):
+        try:
+            c = call_case(q, ctx)
+            ml = drv.ask(dict(p='C11', xs=[c['x']]))['traces'][0] if drv else None
+            g = call_verdict(q, ctx, ml, c)
+        except Exception:
+            return None
+        return g if g and g[:2] == f[:2] else None
+    counter = [0]
+    changed = True
+    while changed:
+        changed = False
+        for q in sub_calls(spec, counter):
+            if fails(q):
+                spec, changed = q, True
+                break
+    return spec, fails(spec) or f
+
+
+def run_calls(env, res, hist, rp):
+    drv, tier = env['driver'], env['tier']
+    rng = common.make_rng(env['seed'], 'C11-calls')
+    ctx = conv_context('camel')
+    todo = []
+    if rp is not None:
+        if not rp.get('call'):
+            return
+        todo = [(rp['call'], call_case(rp['call'], ctx))]
+    n = 700 if tier == 'quick' else 8000
+    tries = 0
+    while rp is None and len(todo) < n and tries < 4 * n:
+        tries += 1
+        spec = CallGen(rng, ctx, 2 if tier == 'quick' else 3).make('python' if rng.random() < 0.3 else 'camel')
+        try:
+            todo.append((spec, call_case(spec, ctx)))
+        except Bad:
+            bump(hist, 'call-regenerated')
+    mlogs = [None] * len(todo)
+    if drv:
+        mlogs = []
+        for i in range(0, len(todo), 300):
+            mlogs += drv.ask(dict(p='C11', xs=[c['x'] for _, c in todo[i:i + 300]]))['traces']
+    for (spec, c), ml in zip(todo, mlogs):
+        res.case(c['text'], len(c['ref_log']) >= 2)
+        if ml is not None:
+            res.traces += 1
+        bump(hist, 'call:' + spec['kind'])
+        bump(hist, 'call-conv:' + spec.get('conv', 'camel'))
+        bump(hist, 'call-applications:%d' % min(c['napps'], 4))
+        sn = call_names(spec)
+        for k, nm, pr in sn:
+            if pr and isinstance(spec.get(k), dict):
+                kw = nm in sp_of(spec, sn)['kw']
+                bump(hist, 'lazy-arg:%s.%s:%s' % (call_entry(spec, 'camel').name, nm, 'keyword' if kw else 'positional'))
+                if kw:
+                    bump(hist, 'lazy-by-keyword:%s' % spec.get('conv', 'camel'))
+        f = call_verdict(spec, ctx, ml, c)
+        if f:
+            small, g = shrink_call(spec, ctx, drv, f)
+            res.fail(g[0], g[1], g[2], dict(call=small, text=call_text(small)))
+            if len([x for x in res.failures if x.replay and x.replay.get('call')]) >= 4:
+                break
+
+
 def run(env, res):
     drv = env['driver']
     tier = env['tier']
@@ -1520,7 +1835,8 @@ def run(env, res):
     cases = []
     if env['replay']:
         rp = json.load(open(env['replay']))['case']
-        cases = [(rp['text'], rp['x'], rp.get('overloads', 3), rp.get('conv', 'camel'))] if not rp.get('pipe') else []
+        cases = [(rp['text'], rp['x'], rp.get('overloads', 3), rp.get('conv', 'camel'))] if not (
+            rp.get('pipe') or rp.get('call')) else []
     else:
         for text, x in HAND:
             for k in (1, 6):
@@ -1543,9 +1859,10 @@ def run(env, res):
         model = []
         for i in range(0, len(cases), 500):
             model += drv.ask(dict(p='C11', xs=[c[1] for c in cases[i:i + 500]]))['traces']
-    if env['replay'] and rp.get('pipe'):
+    if env['replay'] and (rp.get('pipe') or rp.get('call')):
         cases = []
     run_pipes(env, res, rng, ctxs, hist, rp if env['replay'] else None)
+    run_calls(env, res, hist, rp if env['replay'] else None)
     for ci, (text0, x, k, conv) in enumerate(cases):
         exp = py_trace(x)
         text = conv_text(text0, conv)
